@@ -96,6 +96,14 @@ def be8 (n : Nat) : Bytes :=
    UInt8.ofNat (n / 16777216 % 256), UInt8.ofNat (n / 65536 % 256),
    UInt8.ofNat (n / 256 % 256), UInt8.ofNat (n % 256)]
 
+/-- `float64` under the encoder defaults: 8 bytes, except NaN → `f9 7e00` (NaNConvert7e00) and
+    ±Inf → `f9 7c00` / `f9 fc00` (InfConvertFloat16) -/
+def encFloat (bits : Nat) : Bytes :=
+  if bits / 4503599627370496 % 2048 = 2047 then
+    (if bits % 4503599627370496 ≠ 0 then [0xf9, 0x7e, 0x00]
+     else if bits / 9223372036854775808 % 2 = 1 then [0xf9, 0xfc, 0x00] else [0xf9, 0x7c, 0x00])
+  else 0xfb :: be8 bits
+
 /-- sort encoded (key, value) pairs bytewise by key — `SortCoreDeterministic` -/
 def sortPairs (l : List (Bytes × Bytes)) : List (Bytes × Bytes) :=
   l.mergeSort (fun a b => bytesLe a.1 b.1)
@@ -135,7 +143,7 @@ def encodeAny (cfg : EncCfg) : GoVal → Option Bytes
   | .bytesNil => some [0xf6]
   | .bool b => some [if b then 0xf5 else 0xf4]
   | .simple n => some (encHead 7 n)
-  | .float bits => some (0xfb :: be8 bits)
+  | .float bits => some (encFloat bits)
   | .arr xs => match encodeList cfg xs with
       | some b => some (encHead 4 xs.length ++ b)
       | none => none
